@@ -110,6 +110,24 @@ def parse_dump(text):
     return ents
 
 
+def effective_virtual(h, c, m):
+    """[class.virtual]: declared virtual, or same name, parameter types and constness as a virtual function of a direct or indirect base"""
+    if m.virtual:
+        return True
+    if m.static or m.kind != "method":
+        return False
+    sig = (m.name, tuple(p.ty for p in m.params), m.const)
+    for bn, _, _ in c.bases:
+        bc = next(x for x in h.classes if x.name == bn)
+        for bm in bc.methods():
+            if bm.kind == "method" and not bm.static and (bm.name, tuple(p.ty for p in bm.params), bm.const) == sig and effective_virtual(h, bc, bm):
+                return True
+        probe = hdrgen.Method(m.name, m.ret, m.params, m.section, const=m.const)
+        if effective_virtual(h, bc, probe):
+            return True
+    return False
+
+
 def add_scenarios(rng, h):
     """overloads on reference constness with comments; a published override of a merely public base virtual"""
     extra = ""
@@ -123,6 +141,15 @@ def add_scenarios(rng, h):
     extra += "class PlainBase {\npublic:\n  virtual int vm(int a);\n  virtual ~PlainBase();\n__published:\n  int other();\n};\n"
     extra += "class PubDerived : public PlainBase {\n__published:\n  /** override doc */\n  virtual int vm(int a);\n  int more();\n};\n"
     truth.append(("present", "PubDerived::vm", None, ["override doc"]))
+    # overriders that do not repeat `virtual`, reached through bases of every access (and through `class D : B`, private by default)
+    extra += "class VBase {\npublic:\n  VBase();\n  virtual ~VBase();\n  virtual int vread();\n  virtual void vrewind();\n  virtual bool vend() const;\n  int plain();\n};\n"
+    acc = rng.choice(["public ", "protected ", "private ", ""])
+    extra += "class NpDerived : %sVBase {\n__published:\n  NpDerived();\n  int vread();\n  void vrewind() override;\n  bool vend() const;\n  int own() const;\n  int plain();\n};\n" % acc
+    acc2 = rng.choice(["public ", "protected ", "private "])
+    extra += "class NpDeep : %sNpDerived {\n__published:\n  NpDeep();\n  int vread();\n  int own() const;\n  bool vend();\n};\n" % acc2
+    for name, virt in [("NpDerived::vread", True), ("NpDerived::vrewind", True), ("NpDerived::vend", True), ("NpDerived::own", False), ("NpDerived::plain", False),
+                       ("NpDeep::vread", True), ("NpDeep::own", False), ("NpDeep::vend", False)]:
+        truth.append(("virtual", name, virt, None))
     return extra, truth
 
 
@@ -131,11 +158,24 @@ def gen_comment_file(rng):
     lines = ["class CM {", "__published:"]
     comments = []
     decls = []
+    expect = {}     # what the property demands, by construction: the comment written immediately before the declaration, or none
     n = 0
     for k in range(rng.randrange(4, 10)):
         name = "cf%d" % k
         form = rng.randrange(7)
         marker = "doc-%d" % k
+        if rng.random() < 0.3:
+            # a conditional block with a skipped branch (whose comments and declarations do not exist) before this declaration
+            skipped = ["  /** skipped-%d */" % k, "  void skipped%d();" % k]
+            lines += rng.choice([
+                ["#if 0"] + skipped + ["#elif 1", "#endif"],
+                ["#if 0"] + skipped + ["#else", "#endif"],
+                ["#ifdef GEN_NOT_DEFINED"] + skipped + ["#endif"],
+                ["#if 0"] + skipped + ["#elif 0"] + skipped + ["#elif 1", "#endif"],
+                ["#if 1", "#else"] + skipped + ["#endif"],
+                ["#ifndef GEN_NOT_DEFINED", "#elif 1"] + skipped + ["#endif"],
+                ["#if 0"] + skipped + ["#elif defined(GEN_NOT_DEFINED)"] + skipped + ["#else", "#endif"],
+            ])
         if form == 0:       # comment on the line before
             lines.append("  /** %s */" % marker)
             comments.append((len(lines), marker))
@@ -167,7 +207,9 @@ def gen_comment_file(rng):
             comments.append((len(lines), marker))
             lines.append("  void %s();" % name)
         decls.append((len(lines), name))
+        expect[name] = None if form in (3, 4) else marker
     lines.append("};")
+    gen_comment_file.expect = expect
     return "\n".join(lines) + "\n", comments, decls
 
 
@@ -230,8 +272,10 @@ def run(ck):
                                 continue
                             bad("method-missing", "method %s::%s (%s) is exported but has no function entry" % (c.name, m.name, m.section))
                             continue
-                        if m.virtual and "virtual" not in fn["flags"]:
-                            bad("virtual-flag", "%s::%s is declared virtual; recorded flags %s" % (c.name, m.name, fn["flags"]))
+                        ev = effective_virtual(h, c, m)
+                        if ev != ("virtual" in fn["flags"]):
+                            bad("virtual-flag", "%s::%s is %s; recorded flags %s" % (c.name, m.name, "declared virtual" if m.virtual else
+                                "virtual because it overrides a virtual function of a base class" if ev else "not virtual", fn["flags"]))
                         nd = m.n_defaults()
                         if len(fn["wrappers"]) != nd + 1:
                             bad("wrapper-count", "%s::%s has %d trailing defaults; %d wrappers recorded" % (c.name, m.name, nd, len(fn["wrappers"])))
@@ -297,10 +341,16 @@ def run(ck):
                 for kind, name, sigs, comments in scen:
                     fn = d["function"].get(name)
                     ck.search_case("scenario-" + kind)
+                    if fn is None and kind == "virtual":
+                        continue
                     if fn is None:
                         bad("scenario-missing:" + name, "%s is published but has no function entry (%s)" % (name, " ".join(opts) or "default options"))
                         continue
-                    if sigs is not None:
+                    if kind == "virtual":
+                        if fn is not None and ("virtual" in fn["flags"]) != sigs:
+                            bad("virtual-flag", "%s is %s; recorded flags %s" % (name, "virtual: it overrides a virtual function of a (non-public or indirect) base class" if sigs
+                                                                               else "not virtual", fn["flags"]))
+                    elif sigs is not None:
                         got = sorted([p["type"] for p in w["params"] if "this" not in p["tags"]] for w in fn["wrappers"])
                         if got != sorted(sigs):
                             bad("overloads-differ:" + name, "%s: recorded overload parameter types %s, declared %s" % (name, got, sorted(sigs)))
@@ -341,6 +391,10 @@ def run(ck):
                              feature="attached" if want else "none")
                 # the property itself: the comment must be one that immediately precedes this declaration, and no comment may be used twice
                 ck.search_case("comment-precedes-and-once")
+                must = gen_comment_file.expect[name]
+                if got != must and want == must:
+                    ck.violation("comment-lost" if must else "comment-misattached", "%s: the comment immediately before it is %r, the database records %r" % (name, must, got),
+                                 {"cm.h": text}, "")
             used = {}
             for (line, name), entry in zip(decls, log):
                 fn = d["function"].get("CM::" + name)
